@@ -7,6 +7,12 @@ from .ctx import Unsupported, SpecError
 from .vals import *   # noqa
 
 REC_METHODS = {"get", "items", "keys", "values", "copy"}
+KNOWN_METHODS = {
+    "list": {"append", "extend", "insert", "pop", "remove", "clear", "copy", "index", "count", "sort", "reverse"},
+    "dict": {"get", "items", "keys", "values", "pop", "update", "setdefault", "copy", "clear", "popitem", "fromkeys"},
+    "set": {"add", "discard", "remove", "clear", "copy", "update", "union", "intersection", "difference",
+            "issubset", "issuperset", "pop"},
+}
 
 
 def _arg(args, kwargs, i, name, default=None):
@@ -99,6 +105,11 @@ def b_int(I, args, kw):
         return VInt(z3.If(v.t, 1, 0))
     if v.tag == "real":
         return VInt(z3.If(v.t >= 0, z3.ToInt(v.t), -z3.ToInt(-v.t)))
+    if v.tag == "str" and z3.is_string_value(v.t):
+        try:
+            return VInt(int(v.t.as_string()))
+        except ValueError:
+            I.raise_("ValueError")
     if v.tag == "str":
         ok = z3.Function("py_int_ok", z3.StringSort(), z3.BoolSort())
         f = z3.Function("py_int", z3.StringSort(), z3.IntSort())
@@ -120,6 +131,17 @@ def b_float(I, args, kw):
         return VReal(z3.ToReal(v.t))
     if v.tag == "bool":
         return VReal(z3.If(v.t, z3.RealVal(1), z3.RealVal(0)))
+    if v.tag == "str" and z3.is_string_value(v.t):
+        try:
+            fv = float(v.t.as_string())
+            if fv != fv or fv in (float("inf"), float("-inf")):
+                raise Unsupported("float literal nan/inf")
+            import fractions
+            fr = fractions.Fraction(v.t.as_string().strip()) if "e" not in v.t.as_string().lower() else \
+                fractions.Fraction(fv)
+            return VReal(z3.RealVal(str(fr)))
+        except ValueError:
+            I.raise_("ValueError")
     if v.tag == "str":
         ok = z3.Function("py_float_ok", z3.StringSort(), z3.BoolSort())
         f = z3.Function("py_float", z3.StringSort(), z3.RealSort())
@@ -147,6 +169,10 @@ def b_str(I, args, kw):
         return VStr(z3.If(v.t, z3.StringVal("True"), z3.StringVal("False")))
     if v.tag == "none":
         return VStr("None")
+    if v.tag in ("list", "dict", "set"):
+        return VStr(z3.String("str_of:" + v.ref.name))       # same object, same text (content changes ignored)
+    if v.tag == "obj":
+        return VStr(z3.String("str_of:" + v.ref.name))
     return VStr(z3.String(I.fresh_name("str")))
 
 
@@ -503,8 +529,26 @@ def rec_method(I, obj, name, args, kw):
     raise Unsupported("record method %s" % name)
 
 
+def _lit(v):
+    return v.tag == "str" and z3.is_string_value(v.t)
+
+
 def str_method(I, v, name, args, kw):
     s = v.t
+    # literal receiver and literal arguments: evaluate with CPython itself (exact)
+    if _lit(v) and name in ("upper", "lower", "split", "strip", "lstrip", "rstrip", "startswith", "endswith", "find",
+                            "replace", "isdigit", "title", "capitalize", "count", "rsplit"):
+        fargs = [I.force(a) for a in args]
+        if all(_lit(a) or (a.tag == "int" and z3.is_int_value(a.t)) for a in fargs) and not kw:
+            pa = [a.t.as_string() if a.tag == "str" else a.t.as_long() for a in fargs]
+            r = getattr(v.t.as_string(), name)(*pa)
+            if isinstance(r, list):
+                return I.new_list([VStr(x) for x in r])
+            if isinstance(r, bool):
+                return VBool(r)
+            if isinstance(r, int):
+                return VInt(r)
+            return VStr(r, v.is_bytes)
     if name in ("upper", "lower"):
         f = z3.Function("py_str_" + name, z3.StringSort(), z3.StringSort())
         r = f(s)
